@@ -179,4 +179,19 @@ Definition job_made_it (e : evrec) : bool :=
     else bool_decide (0 <= ev_jp_min e) && bool_decide (ev_jp_min e <= ev_jp_count e)).
 Definition law_job_pipelined : bool := forallb job_made_it (li_evs L).
 
+(* 106: a pod whose eviction the cache refuses is not evicted: it is in no accepted evictor call and
+   ends the cycle in the status it had before (Running stays Running, Bound stays Bound), whatever
+   was pipelined in its place *)
+Definition refused_ok (i : positive) : bool :=
+  negb (existsb (fun e => bool_decide (ev_victim e = i)) (li_evs L)) &&
+  match spec_task i with
+  | Some t =>
+    match ts_status t with
+    | Running | Bound => match final_of i with Some (st, _) => bool_decide (st = ts_status t) | None => false end
+    | _ => true
+    end
+  | None => true
+  end.
+Definition law_refused : bool := forallb refused_ok (sp_refuse sp).
+
 End Laws.
